@@ -277,7 +277,63 @@ def standin_routing(tier, seed):
                 R.bad("routed circuit is not the input up to the reported initial mapping and final permutation", graph=gname, mapper=mname, circuit=c, routed=routed, initial=imap, final=smap)
             except Exception as ex:
                 R.bad(f"could not compare routed circuit: {type(ex).__name__}: {str(ex)[:100]}", graph=gname, mapper=mname, circuit=c)
-    return R.out(F + "/routing/route_circuit_cqc.py:RouteCQC.route_circuit", "routing", f"{per} seeded circuits (2-5 logical qubits, <= 8 operations) x 6 device graphs x 3 initial mappers x lookahead 1/3/8")
+    # circuits with mid-circuit measurements and feed-forward: the routed circuit produces the same joint distribution of records (keys are
+    # what results are read by; an intermediate default-key measurement of 3+ qubits is documented to be split per qubit)
+    from contracts import refsim
+    for gname, graph in _graphs(rng):
+        nodes = sorted(graph.nodes)
+        for i in range(per):
+            n = rng.randrange(3, min(len(nodes), 4) + 1)
+            logical = [cirq.NamedQubit(f"L{k}") for k in range(n)]
+            ops, expected, keys, did_split = [], [], [], False
+            for _ in range(rng.randrange(3, 9)):
+                r = rng.random()
+                if r < 0.35:
+                    a, b = rng.sample(logical, 2)
+                    o = rng.choice([cirq.CNOT, cirq.CZ, cirq.ISWAP ** 0.5])(a, b)
+                elif r < 0.55:
+                    k = f"k{len(keys)}"
+                    o = cirq.measure(rng.choice(logical), key=k, invert_mask=(rng.random() < 0.3,))
+                    keys.append(k)
+                elif r < 0.75 and keys:
+                    o = rng.choice([cirq.X, cirq.Z, cirq.H])(rng.choice(logical)).with_classical_controls(rng.choice(keys))
+                elif r < 0.82 and not did_split:
+                    did_split = True
+                    mask = tuple(rng.random() < 0.4 for _ in range(3))
+                    trio = rng.sample(logical, 3)
+                    ops.append(cirq.measure(*trio, invert_mask=mask))
+                    expected.extend(cirq.measure(q_, invert_mask=(m_,)) for q_, m_ in zip(trio, mask))
+                    continue
+                else:
+                    o = rng.choice([cirq.H, cirq.X ** 0.5, cirq.T])(rng.choice(logical))
+                ops.append(o)
+                expected.append(o)
+            tail = [cirq.H(logical[0]), cirq.measure(*logical, key="final")]
+            c = cirq.Circuit(ops, tail, strategy=cirq.InsertStrategy.NEW)
+            want_c = cirq.Circuit(expected, tail, strategy=cirq.InsertStrategy.NEW)
+            R.cases += 1
+            try:
+                routed, imap, smap = cirq.RouteCQC(graph).route_circuit(c, lookahead_radius=rng.choice([1, 3]))
+            except Exception as ex:
+                R.bad(f"route_circuit raised {type(ex).__name__}: {str(ex)[:100]}", graph=gname, circuit=c)
+                continue
+            badop = next((op for op in routed.all_operations() if len(op.qubits) == 2 and not cirq.is_measurement(op) and not graph.has_edge(*op.qubits)), None)
+            if badop is not None:
+                R.bad("routed circuit has a two-qubit operation on a pair that is not an edge of the device graph", graph=gname, circuit=c, operation=badop)
+                continue
+            try:
+                got = refsim.ref_distribution(routed, sorted(routed.all_qubits()))
+                want = refsim.ref_distribution(want_c, logical)
+            except RuntimeError:
+                continue
+            except refsim.ControlBeforeMeasurement as ex:
+                R.bad("routed circuit evaluates a classical control before its key is measured", graph=gname, circuit=c, routed=routed)
+                continue
+            # the terminal joint measurement lists the physical qubits in mapped order: compare per key as records
+            if not refsim.dist_close(got, want, atol=1e-6):
+                R.bad("routed circuit with measurements / classical control has a different joint distribution of records", graph=gname, circuit=c, routed=routed)
+    return R.out(F + "/routing/route_circuit_cqc.py:RouteCQC.route_circuit", "routing", f"{per} seeded circuits (2-5 logical qubits, <= 8 operations) x 6 device graphs x 3 initial mappers x lookahead 1/3/8; "
+                 f"{per} more per graph with mid-circuit measurements (invert masks, a split 3-qubit one), feed-forward and a terminal joint measurement, by exact record distributions")
 standin_routing.prop = "C07"
 
 
